@@ -196,3 +196,27 @@ func genHistory(r *rand.Rand, base *lib.Tree, k int, seeds [][]byte, upperNames 
 	}
 	return ops
 }
+
+// extendOnResults calls Extend on values RETURNED BY DETECTION (and on their parents).
+// Such values are detached copies: the registered tree, and therefore every other
+// detection, must not change. The new sub-formats accept only a dedicated probe, so a
+// library that chose to honour such a call would still leave every other input alone.
+var onResultCounter int
+
+func extendOnResults(r *rand.Rand, seeds [][]byte, k int) {
+	for i := 0; i < k; i++ {
+		s := seeds[r.Intn(len(seeds))]
+		if len(s) > 4096 {
+			s = s[:4096]
+		}
+		mimetype.SetLimit(3072)
+		res := mimetype.Detect(s)
+		target := res
+		for up := r.Intn(3); up > 0 && target.Parent() != nil; up-- {
+			target = target.Parent()
+		}
+		onResultCounter++
+		target.Extend(func(raw []byte, _ uint32) bool { return bytes.HasPrefix(raw, []byte("VERIF-ONRESULT-PROBE")) },
+			fmt.Sprintf("application/x-verif-onresult-%d", onResultCounter), ".vor")
+	}
+}
